@@ -33,6 +33,7 @@ type lrCase struct {
 	Timeout int      `json:"timeout"` // ms, default 10000
 	NoLibs  bool     `json:"nolibs"`
 	MaxEv   int      `json:"maxev"`
+	Alloc   bool     `json:"alloc"` // measure heap allocation of the case
 	Gor     bool     `json:"gor"` // report the number of goroutines left behind by the case
 	Trace   string   `json:"trace"` // "", "ctx", "co", "all": record a hook trace (verif builds)
 	Raw     bool     `json:"raw"` // call the chunk with rt.Call directly instead of inside Thread.CallContext
@@ -55,6 +56,8 @@ type lrOut struct {
 	Gor     *int          `json:"goroutines_left,omitempty"`
 	Stdout  string        `json:"stdout,omitempty"`
 	Trace   []traceEv     `json:"trace,omitempty"`
+	Alloc   uint64        `json:"alloc_bytes,omitempty"` // Go heap bytes allocated while the case ran (MemStats.TotalAlloc delta)
+	WallMs  int64         `json:"wall_ms,omitempty"`
 }
 
 // valueCodec turns Lua values into JSON, giving reference values an identity
@@ -305,9 +308,20 @@ func luaRun(args []string) int {
 		if c.Gor {
 			gorBefore = settledGoroutines()
 		}
+		var ms0 goruntime.MemStats
+		if c.Alloc {
+			goruntime.ReadMemStats(&ms0)
+		}
+		t0 := time.Now()
 		go func() { done <- runLuaCase(&c) }()
 		select {
 		case o := <-done:
+			o.WallMs = time.Since(t0).Milliseconds()
+			if c.Alloc {
+				var ms1 goruntime.MemStats
+				goruntime.ReadMemStats(&ms1)
+				o.Alloc = ms1.TotalAlloc - ms0.TotalAlloc
+			}
 			if c.Gor {
 				left := settledGoroutines() - gorBefore
 				if c.GorExp != nil {
